@@ -72,8 +72,8 @@ type Server struct {
 	// StaleAtList: for every stale frame a faulty stream replayed, how many successful lists had taken their
 	// snapshot when it was delivered (a later list is needed to repair what the stale frame did)
 	StaleAtList []int
-	Inflight  int
-	MaxFlight int
+	Inflight    int
+	MaxFlight   int
 }
 
 func New() *Server {
